@@ -144,12 +144,12 @@ def group_runs(g, tier):
             return dict(kind='handles', cfg=cfg, names=names, b=b, walks=walks, len=60, lower=False, depth=depth, extreme=True, inst='MC_Handles_q', tspec='Trace_Handles', no_zero_read=nz)
         return [
             W('async:mem', 'edges', frac=0.04 if q else 1.0), W('async:mem', 'random', names='prefix', walks=15 * k, length=40), W('async:mem', 'random', names='prefix2', walks=10 * k, length=40), W('async:ovl(mem,mem)', 'random', names='nearwo', walks=8 * k, length=40, split=True), W('async:mem', 'edges', lts='chain', frac=0.2 if q else 1.0),
-            W('async:ovl(mem,mem)', 'random', lts='chain', walks=6 * k, length=40), W('async:mem', 'random', lts='wide', walks=6 * k, length=40), W('async:mem', 'random', names='rnd', walks=8 * k, length=40),
+            W('async:ovl(mem,mem)', 'random', lts='chain', walks=6 * k, length=40, split=True), W('async:mem', 'random', lts='wide', walks=6 * k, length=40), W('async:mem', 'random', names='rnd', walks=8 * k, length=40),
             W('async:phys', 'edges', frac=0.015 if q else 0.5), W('async:phys', 'edges', frac=0.03 if q else 1.0, ops='copy_file,move_file,copy_dir,move_dir'), W('async:phys', 'random', names='multi', b=8193, walks=6 * k, length=30),
             W('async:alt(zr,mem)', 'random', names='dotted', walks=12 * k, length=40), W('async:alt(zr/zs,phys)', 'random', walks=6 * k, length=30),
-            W('async:ovl(mem,mem)', 'edges', frac=0.02 if q else 0.5), W('async:ovl(mem,mem)', 'random', walks=15 * k, length=40, lts='deep'),
-            W('async:ovl(mem,mem,mem)', 'random', walks=8 * k, length=40), W('async:ovl(phys,phys)', 'random', walks=5 * k, length=30),
-            W('async:alt(zr,ovl(mem,mem))', 'random', walks=8 * k, length=40), W('async:ovl(alt(zu,mem),mem)', 'random', names='prefix', walks=8 * k, length=40),
+            W('async:ovl(mem,mem)', 'edges', frac=0.02 if q else 0.5, split=True), W('async:ovl(mem,mem)', 'edges', frac=0.04 if q else 1.0, split=True, lower_only=True, ops='create_dir,create_file,append_file,remove_file,remove_dir,create_dir_all,remove_dir_all,set_time'), W('async:ovl(mem,mem)', 'random', walks=15 * k, length=40, lts='deep', split=True),
+            W('async:ovl(mem,mem,mem)', 'random', walks=8 * k, length=40, split=True), W('async:ovl(phys,phys)', 'random', walks=5 * k, length=30, split=True),
+            W('async:alt(zr,ovl(mem,mem))', 'random', walks=8 * k, length=40), W('async:ovl(alt(zu,mem),mem)', 'random', names='prefix', walks=8 * k, length=40, split=True),
             dict(kind='awalk', cfgs='mem;ovl(mem,mem);alt(zr,mem);phys;ovl(phys,mem)', trees=6 * k, dense=10, pair_frac=0.1 if q else 1.0, tspec='Trace_WalkAsync'),
             H('async:mem', walks=150 * k), H('async:mem', b=4096, names='multi', walks=30 * k, depth=2), H('async:ovl(mem,mem)', walks=30 * k), H('async:alt(zr,mem)', walks=20 * k, depth=2),
             H('async:phys', walks=30 * k, nz=True), H('async:phys', b=8193, walks=8 * k, nz=True), H('async:ovl(phys,phys)', walks=10 * k, nz=True),
